@@ -253,6 +253,11 @@ class Backtest(object):
                 self.strategy.run()
                 # need update after to save weights, values and such
                 self.strategy.update(dt)
+                if self.strategy.bankrupt:
+                    # declared while the algos were running: close what the
+                    # rest of the stack opened afterwards
+                    self.strategy.flatten()
+                    self.strategy.update(dt)
             else:
                 if self.progress_bar:
                     bar.stop()
